@@ -478,3 +478,193 @@ Proof.
     apply edit_side_spec in Hed as [(_ & _ & ->)|(_ & rx0 & _ & -> & _)]; [done|].
     rewrite lookup_insert_ne; [done|]. intros ->. by apply Hnd.
 Qed.
+
+(** * 6. labels are dropped only together with their species *)
+
+(** [s'] has fewer species than [s] and the surviving ones kept their labels *)
+Definition labels_le (s s' : net) : Prop :=
+  species s' ⊆ species s ∧ ∀ x, x ∈ species s' → mol s' !! x = mol s !! x.
+
+Lemma labels_le_refl s : labels_le s s.
+Proof. done. Qed.
+Lemma labels_le_trans s1 s2 s3 : labels_le s1 s2 → labels_le s2 s3 → labels_le s1 s3.
+Proof.
+  intros [H1 H1'] [H2 H2']. split; [set_solver|]. intros x Hx. rewrite H2' by done. apply H1'. set_solver.
+Qed.
+
+Lemma prune_orphan_labels x s : labels_le s (prune_orphan x s).
+Proof.
+  unfold prune_orphan. destruct (decide _); [|done]. split; cbn; [set_solver|].
+  intros y Hy. rewrite lookup_delete_ne; [done|]. set_solver.
+Qed.
+
+Lemma fold_labels (f : string → net → net) s0 (D : gset string) :
+  (∀ x acc, labels_le acc (f x acc)) → labels_le s0 (set_fold f s0 D).
+Proof.
+  intros Hf. revert D. apply (set_fold_ind_L (λ acc (_ : gset string), labels_le s0 acc)); [done|].
+  intros x X acc _ IH. eapply labels_le_trans; [exact IH|apply Hf].
+Qed.
+
+Lemma remove_rxn_labels s e : labels_le s (remove_rxn s e).1.
+Proof.
+  unfold remove_rxn. destruct (edges s !! e) as [rx|]; [|done]. cbn [fst].
+  eapply labels_le_trans; [eapply labels_le_trans|]; [|apply fold_labels..].
+  - done.
+  - intros x acc. eapply labels_le_trans; [|apply prune_orphan_labels]. done.
+  - intros x acc. eapply labels_le_trans; [|apply prune_orphan_labels]. done.
+Qed.
+
+Lemma remove_species_labels s x prune : labels_le s (remove_species s x prune).1.
+Proof.
+  unfold remove_species. destruct (decide _); [|done]. destruct (decide _); [|done].
+  destruct prune; cbn [fst]; [|done].
+  eapply labels_le_trans; [|apply prune_orphan_labels]. done.
+Qed.
+
+Lemma add_mol s l r rule eid : mol (add s l r rule eid).1.1 = mol s ∧ species s ⊆ species (add s l r rule eid).1.1.
+Proof.
+  unfold add. destruct eid as [e|].
+  - destruct (decide _); [done|]. destruct (rxn_empty _); [done|]. cbn. set_solver.
+  - destruct (next_id _ _) as [[c e]|]; [|done]. destruct (rxn_empty _); [done|]. cbn. set_solver.
+Qed.
+
+Lemma merge_mol s o prefix : mol (merge s o prefix).1 = mol s ∧ species s ⊆ species (merge s o prefix).1.
+Proof.
+  unfold merge.
+  assert (H : ∀ l (acc : net * option err), mol acc.1 = mol s ∧ species s ⊆ species acc.1 →
+              mol (foldl (λ acc p, merge_one prefix acc p.1 p.2) acc l).1 = mol s ∧
+              species s ⊆ species (foldl (λ acc p, merge_one prefix acc p.1 p.2) acc l).1).
+  { induction l as [|[e rx] l IH]; intros acc Hacc; cbn [foldl]; [done|]. apply IH.
+    destruct acc as [s0 [er|]]; [done|]. cbn [fst snd] in *. destruct Hacc as [Ha1 Ha2]. unfold merge_one.
+    destruct (prefix || _).
+    - destruct (next_id _ _) as [[c e']|]; [|done].
+      pose proof (add_mol (set_counters s0 (<[r_rule rx:=c]> (counters s0))) (r_lhs rx) (r_rhs rx) (r_rule rx) (Some e')) as [H1 H2].
+      destruct (add _ _ _ _ _) as [[s2 er] ?]. cbn in *. split; [by rewrite H1|set_solver].
+    - pose proof (add_mol s0 (r_lhs rx) (r_rhs rx) (r_rule rx) (Some e)) as [H1 H2].
+      destruct (add _ _ _ _ _) as [[s2 er] ?]. cbn in *. split; [by rewrite H1|set_solver]. }
+  by apply H.
+Qed.
+
+Lemma merge_raw_mol s es prefix : mol (merge_raw s es prefix).1 = mol s ∧ species s ⊆ species (merge_raw s es prefix).1.
+Proof.
+  unfold merge_raw.
+  assert (H : ∀ l (acc : net * option err), mol acc.1 = mol s ∧ species s ⊆ species acc.1 →
+              mol (foldl (merge_raw_one prefix) acc l).1 = mol s ∧
+              species s ⊆ species (foldl (merge_raw_one prefix) acc l).1).
+  { induction l as [|[[[eid rule] l0] r0] l IH]; intros acc Hacc; cbn [foldl]; [done|]. apply IH.
+    destruct acc as [s0 [er|]]; [done|]. cbn [fst snd] in *. destruct Hacc as [Ha1 Ha2]. unfold merge_raw_one.
+    destruct (prefix || _).
+    - destruct (next_id _ _) as [[c e']|]; [|done].
+      pose proof (add_mol (set_counters s0 (<[rule:=c]> (counters s0))) (normalize_items l0) (normalize_items r0) rule (Some e')) as [H1 H2].
+      destruct (add _ _ _ _ _) as [[s2 er] ?]. cbn in *. split; [by rewrite H1|set_solver].
+    - pose proof (add_mol s0 (normalize_items l0) (normalize_items r0) rule eid) as [H1 H2].
+      destruct (add _ _ _ _ _) as [[s2 er] ?]. cbn in *. split; [by rewrite H1|set_solver]. }
+  by apply H.
+Qed.
+
+Lemma step2_length w o : length (nets (step2 w o).1.1) = length (nets w).
+Proof.
+  destruct o as [o|i l r rule eid|i j e0 rule eid|k' l|k' x0 c|i kl kr rule eid|i es p|i e0 lhs x0 c|i e0 lhs x0 b|i q|k' l'];
+    [destruct (step2_base w o) as (-> & _); apply step_length|cbn [step2]..].
+  - destruct (add _ _ _ _ _) as [[? ?] ?]. cbn. apply insert_length.
+  - destruct (edges _ !! _); [|done]. destruct (add _ _ _ _ _) as [[? ?] ?]. cbn. apply insert_length.
+  - done.
+  - done.
+  - destruct (add _ _ _ _ _) as [[? ?] ?]. cbn. apply insert_length.
+  - destruct (merge_raw _ _ _). cbn. apply insert_length.
+  - destruct (edit_side _ _ _ _). cbn. apply insert_length.
+  - destruct (edit_side _ _ _ _). cbn. apply insert_length.
+  - done.
+  - done.
+Qed.
+
+(** the operations that (re)write labels of network [k] *)
+Definition relabels (o : op2) (k : nat) (x : string) : Prop :=
+  match o with
+  | OBase (OAssignMol i x' _) => i = k ∧ x' = x
+  | OBase (OSetMolMap i _ _ _) => i = k
+  | OBase (OCopy _ j) => j = k
+  | _ => False
+  end.
+
+Lemma step2_labels_kept w o k x :
+  Forall Inv (nets w) → ¬ relabels o k x →
+  mol (getn (nets (step2 w o).1.1) k) !! x =
+    if decide (x ∈ species (getn (nets (step2 w o).1.1) k)) then mol (getn (nets w) k) !! x else None.
+Proof.
+  intros Hw Hnr.
+  pose proof (getn_Inv _ k (step2_Inv w o Hw)) as HI'. pose proof (getn_Inv _ k Hw) as HI.
+  destruct (decide (x ∈ species _)) as [Hx|Hx]; cycle 1.
+  { apply not_elem_of_dom. pose proof (inv_mol _ HI'). set_solver. }
+  destruct (decide (target2 o = Some k)) as [Ht|Hne]; [|by rewrite step2_frame].
+  destruct (decide (k < length (nets w))%nat) as [Hlt|Hge]; cycle 1.
+  { pose proof (step2_length w o) as Hl.
+    rewrite getn_ge in Hx by lia. cbn in Hx. set_solver. }
+  revert Hx. 
+  destruct o as [o|i l r rule eid|i j e0 rule eid|k' l|k' x0 c|i kl kr rule eid|i es p|i e0 lhs x0 c|i e0 lhs x0 b|i q|k' l'];
+    cbn [target2 relabels] in *; try done.
+  - destruct (step2_base w o) as (-> & _).
+    destruct o as [i l r rule eid|i e|i x0 p|i j p|i j|i x0 m|i mp st cl]; cbn [target step fst] in *; injection Ht as ->.
+    + pose proof (add_mol (getn (nets w) k) (normalize l) (normalize r) rule eid) as [H1 _].
+      destruct (add _ _ _ _ _) as [[s er] ?]. cbn [fst] in *. rewrite getn_setn_eq by done. by rewrite H1.
+    + pose proof (remove_rxn_labels (getn (nets w) k) e) as [_ H1].
+      destruct (remove_rxn _ _) as [s er]. cbn [fst] in *. rewrite getn_setn_eq by done. apply H1.
+    + pose proof (remove_species_labels (getn (nets w) k) x0 p) as [_ H1].
+      destruct (remove_species _ _ _) as [s er]. cbn [fst] in *. rewrite getn_setn_eq by done. apply H1.
+    + pose proof (merge_mol (getn (nets w) k) (getn (nets w) j) p) as [H1 _].
+      destruct (merge _ _ _) as [s er]. cbn [fst] in *. rewrite getn_setn_eq by done. by rewrite H1.
+    + by destruct Hnr.
+    + unfold assign_mol. destruct (decide _); cbn [fst]; rewrite getn_setn_eq by done; [|done].
+      cbn. intros _. rewrite lookup_insert_ne; [done|]. intros ->. by apply Hnr.
+    + by destruct Hnr.
+  - injection Ht as ->. cbn [step2].
+    pose proof (add_mol (getn (nets w) k) (normalize_items l) (normalize_items r) rule eid) as [H1 _].
+    destruct (add _ _ _ _ _) as [[s er] ?]. cbn [fst snd nets setnets] in *. rewrite getn_setn_eq by done. by rewrite H1.
+  - injection Ht as ->. cbn [step2]. destruct (edges (getn (nets w) j) !! e0) as [rx0|]; [|done].
+    pose proof (add_mol (getn (nets w) k) (r_lhs rx0) (r_rhs rx0) rule eid) as [H1 _].
+    destruct (add _ _ _ _ _) as [[s er] ?]. cbn [fst snd nets setnets] in *. rewrite getn_setn_eq by done. by rewrite H1.
+  - injection Ht as ->. cbn [step2].
+    pose proof (add_mol (getn (nets w) k) (getp (pool w) kl) (getp (pool w) kr) rule eid) as [H1 _].
+    destruct (add _ _ _ _ _) as [[s er] ?]. cbn [fst snd nets setnets] in *. rewrite getn_setn_eq by done. by rewrite H1.
+  - injection Ht as ->. cbn [step2].
+    pose proof (merge_raw_mol (getn (nets w) k) es p) as [H1 _].
+    destruct (merge_raw _ _ _) as [s er]. cbn [fst snd nets setnets] in *. rewrite getn_setn_eq by done. by rewrite H1.
+  - injection Ht as ->. cbn [step2].
+    destruct (edit_side _ _ _ _) as [s er] eqn:Hed. cbn [fst snd nets setnets]. rewrite getn_setn_eq by done.
+    apply edit_side_spec in Hed as [(_ & _ & ->)|(_ & rx0 & _ & _ & _ & _ & _ & _ & -> & _)]; done.
+  - injection Ht as ->. cbn [step2].
+    destruct (edit_side _ _ _ _) as [s er] eqn:Hed. cbn [fst snd nets setnets]. rewrite getn_setn_eq by done.
+    apply edit_side_spec in Hed as [(_ & _ & ->)|(_ & rx0 & _ & _ & _ & _ & _ & _ & -> & _)]; done.
+Qed.
+
+(** * 7. what an add through RXNSide objects stores: the VALUES at call time *)
+
+Lemma add_stores s l r rule eid s' e :
+  add s l r rule eid = (s', None, e) →
+  edges s !! e = None ∧ edges s' !! e = Some (Rxn (norm_rule rule) l r) ∧ (∀ e0, eid = Some e0 → e = e0).
+Proof.
+  intros H. apply add_spec in H as (He & Hn & _ & -> & _). split; [done|]. split; [apply lookup_insert|done].
+Qed.
+
+Lemma add_pool_stores w i kl kr rule eid :
+  (i < length (nets w))%nat → (step2 w (OAddPool i kl kr rule eid)).1.2 = None →
+  ∃ e, edges (getn (nets w) i) !! e = None ∧
+       edges (getn (nets (step2 w (OAddPool i kl kr rule eid)).1.1) i) !! e =
+         Some (Rxn (norm_rule rule) (getp (pool w) kl) (getp (pool w) kr)) ∧
+       pool (step2 w (OAddPool i kl kr rule eid)).1.1 = pool w.
+Proof.
+  intros Hi. cbn [step2]. destruct (add _ _ _ _ _) as [[s' er] e] eqn:Ha. cbn [fst snd nets setnets pool].
+  intros ->. apply add_stores in Ha as (H1 & H2 & _). exists e. rewrite getn_setn_eq by done. done.
+Qed.
+
+Lemma add_from_stores w i j e0 rule eid rx :
+  (i < length (nets w))%nat → edges (getn (nets w) j) !! e0 = Some rx →
+  (step2 w (OAddFrom i j e0 rule eid)).1.2 = None →
+  ∃ e, edges (getn (nets w) i) !! e = None ∧
+       edges (getn (nets (step2 w (OAddFrom i j e0 rule eid)).1.1) i) !! e =
+         Some (Rxn (norm_rule rule) (r_lhs rx) (r_rhs rx)).
+Proof.
+  intros Hi He0. cbn [step2]. rewrite He0. destruct (add _ _ _ _ _) as [[s' er] e] eqn:Ha.
+  cbn [fst snd nets setnets pool]. intros ->. apply add_stores in Ha as (H1 & H2 & _). exists e.
+  rewrite getn_setn_eq by done. done.
+Qed.
